@@ -8,9 +8,11 @@ CONSTANTS
   HasCache = TRUE
   CachePutBeforeDbWrite = FALSE
   BulkVersionsUsesEpoch = FALSE
+  FillPolicy = "if_same_generation"
   Export = TRUE
   MaxSteps = 5
   WithReads = TRUE
+  SplitReads = FALSE
 INIT MCInit
 NEXT MCNext
 VIEW View
